@@ -274,7 +274,7 @@ func TestVerif_C20_Duo(t *testing.T) {
 				c.Socks[side] = append(c.Socks[side], duoSockSpec{Kind: rapid.SampledFrom([]int{simKindHost, simKindSrflx, simKindRelayish}).Draw(rt, "kind")})
 			}
 		}
-		stride := rapid.SampledFrom([]uint32{0, 0, 2}).Draw(rt, "wideValueGenerator")
+		stride := rapid.SampledFrom([]uint32{0, 0, 2, 3}).Draw(rt, "wideValueGenerator")
 		// (the option that makes plain nominations respect pair priorities says nothing about renominations)
 		checkPrio := rapid.IntRange(0, 2).Draw(rt, "useCandidateCheckPriority") == 0
 		d, err := newDuoSim(c, func(_ int, cfg *simAgentConfig) { cfg.nomStride = stride; cfg.checkPriority = checkPrio })
@@ -387,6 +387,16 @@ func TestVerif_C20_Duo(t *testing.T) {
 		}
 		// fate of the latest renomination from the harness log
 		last := &hist[len(hist)-1]
+		if stride == 3 {
+			last = &hist[0] // (the first of equal values is the one that counts)
+			// generator past 2^24: the nomination that counts is the one with the highest value on the wire
+			lbl["generator-past-2^24"] = true
+			for i := range hist {
+				if hist[i].value > last.value {
+					last = &hist[i]
+				}
+			}
+		}
 		d.w.mu.Lock()
 		var lastTxid [stun.TransactionIDSize]byte
 		for _, e := range d.w.log {
@@ -411,6 +421,12 @@ func TestVerif_C20_Duo(t *testing.T) {
 		// by deliverAll, loss-free; so if request and response of the latest renomination were delivered
 		// both sides must already agree on its pair.
 		reissued := 0
+		if stride == 3 && !(last.reqOK && last.respOK) {
+			// (re-issuing would draw a smaller wire value: the lost highest nomination cannot be repeated)
+			st.Exclude("generator-past-2^24:highest-nomination-lost")
+
+			return
+		}
 		if !(last.reqOK && last.respOK) {
 			lbl["latest-renomination-lost"] = true
 			for ; reissued < 4; reissued++ {
